@@ -91,6 +91,17 @@ def case_pack_flat(ctx, n, pattern=None, kind=None):
         ctx.case("to_flat∘pack_flat", {"flat": flat, "arrow": arrow}, back, None, {"ok": exp_sorted}, features=feats,
                  nontrivial=n > 0)
         assert ser.name == "p"
+        # the packed column owns its records: the caller goes on with ITS table (numpy-backed, possibly already in label
+        # order), changing it in place — flattening the earlier packed column still gives the records that were packed
+        if not arrow and n > 0 and not use_on:
+            def edit_then_flatten():
+                for c in df.columns:
+                    if df[c].dtype.kind in "fi":
+                        df.iloc[:, list(df.columns).index(c)] = df[c].to_numpy()[::-1].copy() * 0 - 77
+                df.iloc[0, 0] = -78
+                return export.flat_df_view(ser.nest.to_flat())
+            ctx.case("to_flat∘pack_flat.after_source_edit", {"flat": flat, "arrow": arrow}, call_real(edit_then_flatten), None,
+                     back if "ok" in back else None, features=feats + ("source_edit",), nontrivial=True)
 
 
 def case_flat_pack_roundtrip(ctx, s: Subject):
@@ -125,6 +136,18 @@ def case_lists_roundtrip(ctx, s: Subject):
     real = call_real(lambda: export.flat_df_view(pack_lists(ser.nest.to_lists()).nest.to_flat()))
     exp = call_real(lambda: export.flat_df_view(ser.nest.to_flat()))
     ctx.case("to_flat∘pack_lists∘to_lists", s.desc(), real, None, exp, hyp=s.hyp, features=s.features, nontrivial=s.nontrivial())
+    # the same after a field was added: its list array starts at another position of its buffer than the older fields'
+    if not s.hyp.get("hidden") and len(rows) > 0:
+        tot = int(ser.nest.flat_length)
+        ser2 = ser.nest.with_flat_field("zz_new", np.arange(tot, dtype=np.int64) + 500)
+        for nm, fn in (("pack_lists", lambda: pack_lists(ser2.nest.to_lists())),
+                       ("from_lists", lambda: NestedFrame.from_lists(ser2.nest.to_lists(), name="nest")["nest"])):
+            if nm == "from_lists" and any(r is None for r in rows):
+                continue    # a missing row shows as absent lists in the list view (K2): from_lists is not offered those
+            real = call_real(lambda: export.flat_df_view(fn().nest.to_flat()))
+            exp = call_real(lambda: export.flat_df_view(ser2.nest.to_flat()))
+            ctx.case(f"to_flat∘{nm}∘to_lists.after_field_added", s.desc(), real, None, exp, hyp=s.hyp, features=s.features + (nm,),
+                     nontrivial=s.nontrivial())
 
 
 def run_all(ctx):
